@@ -12,6 +12,8 @@
 (* The global switches -v / -d change what is printed, nothing else; a     *)
 (* command line without a usable directory writes nothing; the texts of    *)
 (* `doc example profile|certificate` are valid configurations that sign.   *)
+(* facts.exists = an artifact FILE that the plan would overwrite exists     *)
+(* (the entity's own, or that of a subordinate that follows its issuer).   *)
 (* An observation carries the facts of the root entity under test (as in   *)
 (* Plan.tla), so that whether a plan exists is decided by Plan!Reasons.    *)
 (***************************************************************************)
